@@ -14,7 +14,13 @@ META = {
             "n s]. The model's atomic steps are tied to /repo on every run by the regenerated skeleton of "
             "server.go (every access to Server.endpoints under mu, compare-before-delete, order of calls and "
             "defers in ServeBackName) and by forced schedules driven through a real Server with real endpoints and "
-            "replayed inside Coq.",
+            "replayed inside Coq. The kick path is modelled on top (silent peers, server-side websocket closes, the "
+            "kicker goroutine with its graceful part and its forced close; whether the kicker closes the websocket is "
+            "read off upgrade's goroutine and endpointClient's methods): every history's registry part is a registry "
+            "history, a kicked connection that is still serving can end after at most two kicker steps whatever its "
+            "peer does, and a kick without the forced close is kept as a refuted counter-model (the kicked connection "
+            "of a silent peer keeps its connect notification and never gets the disconnect); a stream with raw "
+            "websocket peers that never answer exercises it.",
     "note": "Trusted: Coq kernel + vm_compute; translator gen/sni_rpc.go; harness/cmd/c15 + sniproxy/verif_rpc.go + "
             "verif_point.go (one schedule point after ep.serve()); sync.Mutex, the websocket upgrade and the "
             "background old.Close() are single abstract steps; the reason a serve loop ends is nondeterministic in "
@@ -103,6 +109,37 @@ def impl_oracle(c):
                 if len(l) != 2 or l[0][0] != "connect" or l[1][0] != "disconnect" or l[0][1] != l[1][1]:
                     out.append(("callbacks-unpaired", "session %s has notifications %s" % (sv, l)))
         return out
+    if c["stream"] == "silent":
+        out = [x for x in out if x[0] not in ("callbacks-unpaired", "hang")]
+        for o in c.get("silent", []):
+            how = "round %d: %d connection(s) whose peer is connected but never answers, each kicked by the next, " \
+                  "the last by a real endpoint" % (o["round"], o["silent_peers"])
+            if o.get("hang"):
+                out.append(("kicked-silent-peer-never-ends",
+                            "%s within 10 s of the kick (ServeBack returned after %s ms; -1 = never); %s"
+                            % (o["hang"], o.get("ended_ms"), how)))
+            if o.get("after") not in ("new",) and not o.get("hang"):
+                out.append(("newest-not-registered", "the name resolves to '%s' instead of the newest connection; %s"
+                            % (o.get("after"), how)))
+            if o.get("after") == "new" and not o.get("new_alive"):
+                out.append(("newest-not-registered", "the newest connection is registered but does not answer; " + how))
+            if o.get("final") not in ("none", None, ""):
+                out.append(("ended-still-registered", "after the newest ended too the name still resolves (%s); %s"
+                            % (o.get("final"), how)))
+            per = {}
+            for x in o.get("notes", []):
+                per.setdefault(x["s"], []).append((x["k"], x["n"]))
+            want = o["silent_peers"] + 1
+            if len(per) != want and not o.get("hang"):
+                out.append(("callbacks-unpaired", "%d accepted connections but notifications for %d sessions; %s"
+                            % (want, len(per), how)))
+            for sv, l in sorted(per.items()):
+                if len(l) != 2 or l[0][0] != "connect" or l[1][0] != "disconnect" or l[0][1] != l[1][1]:
+                    out.append(("callbacks-unpaired",
+                                "session %s has notifications %s 10 s after its connection was kicked: the "
+                                "connection got its connect notification and never the matching disconnect; %s"
+                                % (sv, l, how)))
+        return out
     if c["stream"] == "free":
         if c.get("looks") and any(x != -1 for x in c["looks"][-1]):
             out.append(("ended-still-registered", "a name still resolves after every endpoint has ended"))
@@ -180,8 +217,9 @@ def run(ck):
         nrace = 3 if not ck.thorough else 40
         if ck.broken:
             nrace = 40
+        nsilent = 1 if not ck.thorough else 10       # (2 rounds each; a round costs the kick's 3 s time-out)
         rc, out, err = vlib.sh2([binp, "-seed", str(ck.seed), "-n", str(n), "-free", str(nfree),
-                                 "-race", str(nrace)], timeout=3000)
+                                 "-race", str(nrace), "-silent", str(nsilent)], timeout=3000)
         if rc != 0:
             ck.broken.append({"what": "harness run failed", "detail": err[-1500:]})
         for line in out.splitlines():
@@ -199,6 +237,11 @@ def run(ck):
         key = [c["steps"], c.get("looks")] if c["stream"] == "forced" else [c["stream"], c["i"], len(c.get("notes", []))]
         if c["stream"] == "race":
             key = [c["i"], [(o["how"], o["offset_us"]) for o in c.get("race", [])]]
+        if c["stream"] == "silent":
+            key = [c["i"], [(o["silent_peers"], o.get("after"), len(o.get("notes", []))) for o in c.get("silent", [])]]
+            ck.coverage["silent_peer_rounds"] = ck.coverage.get("silent_peer_rounds", 0) + len(c.get("silent", []))
+            ck.coverage["kicked_silent_connections_ended_ms"] = ck.coverage.get("kicked_silent_connections_ended_ms", []) \
+                + [m for o in c.get("silent", []) for m in o.get("ended_ms", [])]
         ck.count(c["stream"], key=json.dumps(key), trivial=trivial)
         for s in (c["steps"] if c["stream"] == "forced" else []):
             ops[s["op"]] = ops.get(s["op"], 0) + 1
@@ -257,7 +300,10 @@ def run(ck):
              "loops (final state and notification log only); plus a race stream: rounds of '#1 ends on its own "
              "while #2 connects 0-4 ms after #1 stopped serving' with a logger that takes 2 ms per line (widening "
              "every window that contains a log statement), the name must resolve to #2 afterwards (30 rounds; 400 "
-             "when a source obligation is broken). A forced schedule is non-trivial if it has >= 2 "
+             "when a source obligation is broken); plus a silent-peer stream: 1-2 raw websocket clients under one name "
+             "that read and never answer, each kicked by the next, the last by a real endpoint: every kicked "
+             "connection's ServeBack must return within 10 s of its kick (3 s on a sound tree: the kick's forced close), "
+             "exactly one connect and one matching disconnect per accepted connection, the name resolves to the newest. A forced schedule is non-trivial if it has >= 2 "
              "connects; also failed upgrades (plain HTTP request), side-websocket probes for an unknown session (upgraded iff "
              "the name resolves) and connections whose OnConnect / OnDisconnect callback panics; distinct = distinct (schedule, lookups after every step)",
         assumptions=["OnConnect/OnDisconnect are the user's callbacks; the session value is whatever OnConnect returns",
